@@ -46,6 +46,22 @@ def match_known(v: Dict[str, Any], known: List[Dict[str, Any]]):
     return None
 
 
+def preload() -> None:
+    """Import every rule module now: worker processes forked afterwards analyse with the code as it is at this moment
+    (edits to the checker while a long battery runs do not reach them)."""
+    import glob as _glob
+
+    for path in sorted(_glob.glob(os.path.join(os.path.dirname(os.path.abspath(__file__)), "rules", "*.py"))):
+        nm = os.path.basename(path)[:-3]
+        if nm != "__init__":
+            importlib.import_module(f"sa.rules.{nm}")
+    for nm in ("fixtures", "selftest.mutants"):
+        try:
+            importlib.import_module(f"sa.{nm}")
+        except ImportError:
+            pass
+
+
 def run_property(pid: str, tier: str, root: str, out_dir: str, evidence_dir: str, quiet: bool = False) -> int:
     t0 = time.time()
     seed = int(os.environ.get("VERIF_SEED", "0") or 0)
